@@ -7,8 +7,9 @@ UNIT = {
   s('is_enabled', H, r'inline bool is_enabled\(int f = f_cv_active\) const'),
   s('disable', D, r'int colvardeps::disable\(int feature_id\)', subst=[('cvm::increase_depth();', 'cvm_increase_depth();'), ('cvm::decrease_depth();', 'cvm_increase_depth();')]),
   s('decr_ref_count', D, r'int colvardeps::decr_ref_count\(int feature_id\)'),
+  s('enable_enabled', D, r'int colvardeps::enable\(int feature_id,', **{'from': r'if \(fs->enabled\) \{\n    if \(!\(dry_run \|\| toplevel\)\)', 'until': r'std::string feature_type_descr', 'until_close': 'return -1;'}),
  ],
- 'assumed': ['children are stand-ins whose decr_ref_count is a counting stub; features() (virtual) is the frame\'s feature list; log indentation calls are no-ops'],
+ 'assumed': ['task toplevel_survives composes two real pieces, the already-enabled branch of colvardeps::enable (statement range) and the whole body of decr_ref_count: a dependent takes and releases a reference on a capability that was switched on at top level', 'children are stand-ins whose decr_ref_count is a counting stub; features() (virtual) is the frame\'s feature list; log indentation calls are no-ops'],
  'tasks': [
   {'id': 'disable_f1', 'properties': ['C13'], 'slices': ['disable', 'is_enabled'], 'harness': 'h_disable_f1', 'enforce': 'k_disable',
    'replace': ['k_decr_self', 'k_decr_child', 'k_free_children_deps'], 'unwind': 20, 'object_bits': 10,
@@ -22,6 +23,8 @@ UNIT = {
    'bounded': '4 features, at most 2 entries per dependency list, at most 2 children (loops unwound)',
    'mutants_': [('fs->alternate_refs.clear();', ''), ('fs->ref_count > 1', 'fs->ref_count > 2'), ('if (is_enabled()) {', 'if (true) {'), ('fs->ref_count = 0;', ''),
                ('if (feature_id == 0) {', 'if (feature_id == 1) {'), ('decr_ref_count(f->requires_self[i]);', 'decr_ref_count(f->requires_self[0]);')]},
+  {'id': 'toplevel_survives', 'properties': ['C13'], 'slices': ['enable_enabled', 'decr_ref_count', 'feature_is_dynamic'], 'harness': 'h_toplevel_survives', 'enforce': 'k_toplevel_survives',
+   'replace': ['k_disable_stub'], 'unwind': 20, 'object_bits': 10, 'mutants': []},
   {'id': 'decr_ref_count', 'properties': ['C13'], 'slices': ['decr_ref_count', 'feature_is_dynamic'], 'harness': 'h_decr_ref_count', 'enforce': 'k_decr_ref_count',
    'replace': ['k_disable_stub'], 'unwind': 20, 'object_bits': 10,
    'mutants': [('if (rc <= 0) {', 'if (rc < 0) {'), ('rc == 0 && f->is_dynamic()', 'rc == 0'), ('rc--;', 'rc -= 2;')]},
